@@ -102,17 +102,29 @@ def _solve_one(job):
         s.set("timeout", timeout_ms)
         s.from_string(text)
         asserts = list(s.assertions())
-        # stage 1: small slices of the path condition first (fast and stable when they suffice)
-        if len(asserts) > 12:
-            for depth in (1, 2):
-                sub = _slice(asserts, depth)
-                if len(sub) >= len(asserts):
-                    break
-                s1 = z3.Solver()
-                s1.set("timeout", min(1000, timeout_ms))
-                s1.add(*sub)
-                if s1.check() == z3.unsat:
-                    return idx, "unsat", None, time.time() - t0, "z3(slice%d)" % depth
+        n_ax = tactic if isinstance(tactic, int) else 0
+        goal = asserts[-1]
+        hyps = asserts[:-1]
+        plain = hyps[:len(hyps) - n_ax] if n_ax else hyps
+        # small, stable queries first: (a) symbol-neighbourhood slices of the path condition
+        # without the spec-function axioms, (b) the whole path condition without them,
+        # (c) slices with the axioms; only then the full query. Proving from a subset of the
+        # hypotheses is sound.
+        stages = []
+        if len(plain) > 12:
+            stages += [("slice1", _slice(plain + [goal], 1)), ("slice2", _slice(plain + [goal], 2))]
+        if n_ax:
+            stages += [("no-axioms", plain + [goal])]
+            if len(hyps) > 12:
+                stages += [("slice1+ax", _slice(hyps + [goal], 1))]
+        for label, sub in stages:
+            if len(sub) >= len(asserts):
+                continue
+            s1 = z3.Solver()
+            s1.set("timeout", min(1500, timeout_ms))
+            s1.add(*sub)
+            if s1.check() == z3.unsat:
+                return idx, "unsat", None, time.time() - t0, "z3(%s)" % label
         r = s.check()
         if r == z3.unsat:
             return idx, "unsat", None, time.time() - t0, "z3"
@@ -213,7 +225,7 @@ def discharge_texts(obligations, timeout_s=20, nproc=None):
         elif ob.get("trivial"):
             results[i] = {"status": "unsat", "model": None, "time_s": 0.0, "backend": "z3-simplify"}
         else:
-            jobs.append((i, ob["smt2"], int(timeout_s * 1000), None))
+            jobs.append((i, ob["smt2"], int(timeout_s * 1000), int(ob.get("n_axioms", 0))))
     nproc = nproc or NPROC
     if len(jobs) <= 2 or nproc <= 1:
         outs = [_solve_one(j) for j in jobs]
